@@ -239,6 +239,15 @@ def triage(unit, gen, vr, unit_cfg):
             # a failing obligation of the extracted code that no contract clause of the template names (overflow of an
             # arithmetic expression, an index, a callee precondition): it belongs to a property only if the unit says which
             # property covers "no reachable panic / overflow" for its functions (C14 for the readers); otherwise undecided
+            if cls == "panic-freedom" and unit_cfg.get("panic_property"):
+                # a reachable panic!/unreachable!/todo!/unimplemented!() of the extracted code, in a unit that says which property a
+                # panic of its functions breaks (unlike an arithmetic obligation, this needs no invariant about new variables)
+                label = where or "?"
+                mm_ = None
+                failures.append({"obligation": "%s/%s/%s/%s" % (unit, fn or "prelude", cls, label), "cls": cls,
+                                 "property": [unit_cfg["panic_property"]], "fn": fn, "kind": kind, "where": where,
+                                 "rendered": d.get("rendered", ""), "message": msg})
+                continue
             if not unit_cfg.get("unlabelled_property"):
                 tool_errors.append({"kind": "unlabelled-obligation", "message": "%s at %s in %s: no contract clause names this obligation (undecided)" % (msg, where or "?", fn),
                                     "rendered": d.get("rendered", "")})
